@@ -468,6 +468,17 @@ def reader_rule(prog: Program, rep, RID: str, cname: str):
         else:
             nviol += 1
             rep.violation(RID, key, f"reader no longer decodes the writer's scheme: `{norm(val)}` strips {N} character(s), the suffix '.0' has 2", f.loc(app))
+    elif isinstance(val, ast.Call) and isinstance(val.func, ast.Attribute) and val.func.attr == "removesuffix" and len(val.args) == 1 and \
+            isinstance(val.args[0], ast.Constant) and val.args[0].value == ".0":
+        rep.ok(RID, key, "suffix '.0' removed as a suffix (str.removesuffix)", f.loc(app), sample={"value": norm(val)})
+    elif isinstance(val, ast.Call) and isinstance(val.func, ast.Attribute) and val.func.attr in ("rstrip", "strip", "lstrip") and val.args:
+        nviol += 1
+        rep.violation(RID, key, f"reader no longer decodes the writer's scheme: `{norm(val)}` strips a *set of characters*, not the suffix '.0' - the entry '10.0' of node '10' "
+                      "decodes to '1', so a returned route names another node (or a node that does not exist) and its consecutive elements are not edges of the graph", f.loc(app))
+    elif isinstance(val, ast.Call) and isinstance(val.func, ast.Attribute) and val.func.attr == "replace" and len(val.args) >= 2 and len(val.args) < 3:
+        nviol += 1
+        rep.violation(RID, key, f"reader no longer decodes the writer's scheme: `{norm(val)}` removes every occurrence of the suffix text, also inside the node name "
+                      "('a.0b.0' decodes to 'ab')", f.loc(app))
     else:
         unrecognised.append(f"appended value `{norm(val)}`")
     key = f"{cname}.get_condensed_paths:reader-suffix-test"
@@ -568,4 +579,6 @@ def check(prog: Program, rep):
     fill_in_uses_global_terminals(prog, rep, "C11.R6")
     plumb.node_expansion_length_rule(prog, RuleProxy(rep, "C11.R6"), "C10.R8")
     plumb.percentile_rules(prog, RuleProxy(rep, "C11.R6"), "C10.R8")
-
+    # node mode: the factor-0 rule has to act on the *translated* (expanded) elements (C10.R3)
+    from rules.c10 import scale_zero_ignored as _szi
+    _szi(prog, RuleProxy(rep, "C11.R6"), "C10.R3")
